@@ -556,6 +556,20 @@ func (t *Terms) condFacts(cond ssa.Value, pol bool) []Fact {
 		if x.Op == token.NOT {
 			return t.condFacts(x.X, !pol)
 		}
+		if x.Op == token.MUL {
+			// a condition kept in a variable or in a member that is assigned once (`m.More` of the call being built):
+			// what is known is what the assigned comparison says
+			if a, ok := t.resolveFree(x.X).(*ssa.Alloc); ok {
+				if val, ok := singleStore(a); ok {
+					return t.condFacts(val, pol)
+				}
+			}
+			if fa, ok := x.X.(*ssa.FieldAddr); ok {
+				if val := t.writeOnceMember(fa, x); val != nil {
+					return t.condFacts(val, pol)
+				}
+			}
+		}
 	case *ssa.BinOp:
 		op := x.Op
 		switch op {
